@@ -169,7 +169,7 @@ def values_b(tmp):
     """a second representative set: falsy / default-like / other types"""
     return {"event_callback": None, "protocol_version": "2.0.0", "persistence": False,
             "persistence_file": os.path.join(tmp, "b.pickle"), "port": "COM3", "baud": 9600,
-            "host": "localhost", "timeout": 0, "reconnect_timeout": 1, "pub_callback": Sentinel("pub2"),
+            "host": "2001:db8::abcd", "timeout": 0, "reconnect_timeout": 1, "pub_callback": Sentinel("pub2"),
             "sub_callback": Sentinel("sub2"), "in_prefix": "", "out_prefix": "x/y", "retain": True}
 
 
@@ -440,7 +440,20 @@ def behaviour(x):
         out["logic_heartbeat"] = bool(s and s.heartbeat == 10)
     except Exception as exc:  # noqa: BLE001
         out["logic"] = "raised " + type(exc).__name__
-    # the version a node presents
+    # the version a node presents: the same whatever the node presented before (a garbled or older value after a
+    # good one falls back to 1.4 like a first presentation does)
+    try:
+        fresh = Sensor(1)
+        fresh.protocol_version = x
+        for earlier in ("2.2.0", "2.0", "1.5.1"):
+            again = Sensor(1)
+            again.protocol_version = earlier
+            again.protocol_version = x
+            if again.protocol_version != fresh.protocol_version:
+                out["node_history"] = (f"after presenting {earlier} then this value the node's version is "
+                                       f"{again.protocol_version!r}, a fresh node gets {fresh.protocol_version!r}")
+    except Exception as exc:  # noqa: BLE001
+        out["node_history"] = "raised " + type(exc).__name__
     try:
         node = Sensor(1)
         node.protocol_version = x
@@ -859,7 +872,8 @@ def run(tier, seed, driver):
                 + (", all 2^12 / 2^13 sets" if tier == "thorough" else "") + "); version grid major 0..3 x "
                 "minor 0..12 x patch absent/0..3 (260 strings, exhaustive) plus other strings, numbers, None; "
                 "behaviour probes (gateway validate, logic(), node validate_child_state) per grid value; "
-                "README constructor examples; corpus/C18 regressions.  non-trivial = constructed / selected "
+                "README constructor examples; effect probes (persistence with and without event_callback: six classes x two "
+                "formats; MQTT retain / out_prefix on every published command); corpus/C18 regressions.  non-trivial = constructed / selected "
                 "a table; distinct by (class, keyword set, value set) and version value")
     return res
 
